@@ -455,11 +455,15 @@ func NetspocRule(chain string, r Rule, rng *rand.Rand) string {
 			w = append(w, "--log-level", ll)
 		}
 		if r.Mark >= 0 {
-			switch pick(3) {
+			switch pick(5) {
 			case 0:
 				w = append(w, "--set-mark", strconv.Itoa(r.Mark))
 			case 1:
 				w = append(w, "--set-xmark", fmt.Sprintf("0x%02x", r.Mark))
+			case 2:
+				w = append(w, "--set-xmark", fmt.Sprintf("0x%X/0xFFFFFFFF", r.Mark))
+			case 3:
+				w = append(w, "--set-mark", fmt.Sprintf("0x%X", r.Mark))
 			default:
 				w = append(w, "--set-xmark", fmt.Sprintf("0x%x/0xffffffff", r.Mark))
 			}
